@@ -3,6 +3,13 @@
 # the evidence next to what the engine measured.
 
 PROPS = {
+    "C18": {
+        "groups": [
+            {"pkg": "glow", "tags": "verif", "harness": "^verifH_C18_", "now_hook": ["glow/event_log.go"], "unwind": 6},
+        ],
+        "bounds": {"entries": "<= 2 in the inductive steps, <= 3 Printf calls from the empty log", "line length": "<= 3-4 bytes, line limit <= 6, max bytes <= 40", "timestamps per entry": "1..2"},
+        "outside": ["format verbs in logged lines (fmt.Sprintf is a stub returning its format when there are no operands)", "more than 3 entries"],
+    },
     "C02": {
         "groups": [
             {"pkg": "server", "tags": "verif,test", "harness": "^verifH_C02_"},
